@@ -4,6 +4,7 @@ import (
 	"encoding/json"
 	"fmt"
 	"math"
+	"math/big"
 	"sort"
 	"strconv"
 	"strings"
@@ -232,6 +233,51 @@ func genC02(tier, out string, sum *Summary) {
 		}
 		if !strings.ContainsAny(x, "'\\") {
 			run("to_number('"+x+"')", nil, false)
+		}
+	}
+	// numbers carried by Go integer kinds at the limits of the kind: the numeric built-ins answer with the
+	// mathematical value (the magnitude of the most negative value of a kind does not fit the kind)
+	for _, v := range []any{int8(-128), int8(127), int16(-32768), int16(32767), int32(math.MinInt32), int32(math.MaxInt32), int64(math.MinInt64), int64(math.MaxInt64), int(math.MinInt), int(math.MaxInt),
+		uint8(255), uint16(65535), uint32(math.MaxUint32), uint64(math.MaxUint64), uint(math.MaxUint), int64(-1), int8(-1), uint8(0)} {
+		bi, _ := new(big.Int).SetString(fmt.Sprint(v), 10)
+		neg := new(big.Int).Neg(bi)
+		abs := new(big.Int).Abs(bi)
+		for _, c := range []struct {
+			e    string
+			want *big.Int
+		}{{"abs(@)", abs}, {"ceil(@)", bi}, {"floor(@)", bi}, {"- @", neg}, {"+ @", bi}, {"@ * `1`", bi}, {"sum([@])", bi}, {"max([@])", bi}, {"min([@, @])", bi}, {"to_number(@)", bi}, {"abs(@) - abs(@) + abs(@)", abs}, {"avg([@])", bi}, {"abs(- @)", abs}} {
+			o := run(c.e, v, false)
+			sum.count("kind-limits")
+			if !(o.Kind == "val" && sameValue(o.Value, json.Number(c.want.String()), false)) {
+				sum.direct("spec-example", c.e, v, fmt.Sprintf("for the %T %v the value is %s, got %s", v, v, c.want, describe(o)))
+			}
+		}
+		o := run("abs(@) >= `0` && type(abs(@)) == 'number'", v, false)
+		if !(o.Kind == "val" && o.Value == true) {
+			sum.direct("spec-example", "abs(@) >= `0`", v, "an absolute value is a non-negative number, got "+describe(o))
+		}
+	}
+	// to_string writes JSON text: the characters < > & inside nested strings and keys come back when the text is
+	// decoded again, and text that merely looks like an escape is kept as it is
+	for _, str := range []string{"<", ">", "&", "a<b>&c", `\u003c`, `\u003e`, `\u0026`, `x\u003cy`, `\\u003c`, "\u2028", `\`, `"`, `\"`, "<\\u003c>", "&amp;", "</script>"} {
+		for _, doc := range []any{[]any{str}, map[string]any{str: str}, []any{[]any{str, map[string]any{"k": str}}}, str} {
+			o := run("to_string(@)", doc, false)
+			sum.count("to_string-text")
+			txt, ok := o.Value.(string)
+			if o.Kind != "val" || !ok {
+				sum.direct("spec-example", "to_string(@)", doc, "expected a string, got "+describe(o))
+				continue
+			}
+			if _, isStr := doc.(string); isStr {
+				if txt != str {
+					sum.direct("spec-example", "to_string(@)", doc, "to_string of a string is the string, got "+describe(o))
+				}
+				continue
+			}
+			var back any
+			if err := json.Unmarshal([]byte(txt), &back); err != nil || !sameValue(back, doc, false) {
+				sum.direct("spec-example", "to_string(@)", doc, fmt.Sprintf("the text %q does not decode to the value again", txt))
+			}
 		}
 	}
 	// small-scope enumeration of calls: every built-in around every small operand and every small expression
@@ -660,7 +706,9 @@ func genC14(tier, out string, sum *Summary) {
 	}
 	// one value, every spelling a JSON number can have (exponents without a decimal point, trailing zeros, scaled
 	// coefficients) and every kind that holds it: rounding functions and comparisons see the value, not the text
-	for _, grp := range [][]string{{"1.5", "15e-1", "150E-2", "1.50", "0.15e1", "0.015E+2"}, {"-0.5", "-5e-1", "-50e-2", "-0.50"}, {"0.25", "25e-2", "2.5e-1"}, {"1200", "12e2", "1.2e3", "1200.0", "120E1"}, {"-2.5", "-25e-1", "-250e-2"}, {"3", "3.0", "30e-1", "0.3e1", "3e0"}, {"0", "0e-3", "0.0", "-0", "0E5"}} {
+	for _, grp := range [][]string{{"1.5", "15e-1", "150E-2", "1.50", "0.15e1", "0.015E+2"}, {"-0.5", "-5e-1", "-50e-2", "-0.50"}, {"0.25", "25e-2", "2.5e-1"}, {"1200", "12e2", "1.2e3", "1200.0", "120E1"}, {"-2.5", "-25e-1", "-250e-2"}, {"3", "3.0", "30e-1", "0.3e1", "3e0"}, {"0", "0e-3", "0.0", "-0", "0E5"},
+		{"1e70", "1" + strings.Repeat("0", 70), "1" + strings.Repeat("0", 70) + ".000", "0.1e71", strings.Repeat("0", 0) + "10" + strings.Repeat("0", 69) + "e0"}, {"1e-71", "0." + strings.Repeat("0", 70) + "1", "0." + strings.Repeat("0", 70) + "10", "10e-72"},
+		{"123456789012345678901234567890123", "123456789012345678901234567890123." + strings.Repeat("0", 40), "123456789012345678901234567890123" + strings.Repeat("0", 40) + "e-40"}, {"7", "7." + strings.Repeat("0", 100), strings.Repeat("0", 0) + "7" + strings.Repeat("0", 100) + "e-100"}} {
 		docJ := map[string]any{"a": json.Number(grp[0])}
 		for _, e := range []string{"ceil(a)", "floor(a)", "[ceil(a), floor(a)]", "abs(a)", "- a", "a + `0`", "a * `2`", "a == `1.5`", "a < `1`", "to_number(a)", "sort([a, `1`])", "max([a, `1`])", "sum([a])", "avg([a, a])", "a // `1`", "a % `1`", "ceil(a) == floor(a)", "!a", "contains([a], a)", "type(a)", "floor(- a)", "ceil(a + a)"} {
 			ref := search(e, docJ)
@@ -728,6 +776,7 @@ func genC14(tier, out string, sum *Summary) {
 	pairs := [][2]string{{"7", "2"}, {"-7", "2"}, {"7", "-2"}, {"-7", "-2"}, {"2.5", "-0.5"}, {"-2.5", "0.5"}, {"0", "3"}, {"3", "3"},
 		{"9007199254740992", "9007199254740993"}, {"9007199254740993", "9007199254740992"}, {"9223372036854775806", "9223372036854775807"}, {"-9223372036854775808", "-9223372036854775807"},
 		{"4611686018427387904", "4611686018427387905"}, {"18446744073709551614", "18446744073709551615"}, {"127", "-128"}, {"255", "1"},
+		{"9999999999999", "10000000000000"}, {"29999999999999", "10000000000000"}, {"-10000000000001", "10000000000000"}, {"6999999999999", "1000000000000"}, {"9007199254740991", "9007199254740992"}, {"4503599627370497", "4503599627370496"},
 		{"-128", "127"}, {"-32768", "1"}, {"-2147483648", "3"}, {"-9223372036854775808", "1"}, {"9223372036854775808", "1"}, {"9223372036854775808", "-9223372036854775808"}, {"18446744073709551616", "2"}, {"4294967296", "65536"}}
 	ops := []string{"a < b", "a <= b", "a > b", "a >= b", "a == b", "a != b", "a + b", "a - b", "a * b", "a / b", "a // b", "a % b", "- a // b", "max([a, b])", "min([a, b])", "sort([a, b])", "[a, b][?@ > $.a]", "[a, b][?@ <= $.b]", "max_by([{n: a}, {n: b}], &n).n", "sort_by([{n: a}, {n: b}], &n)[0].n", "abs(a)", "- a", "- a > `0`", "a + - a", "sum([a, b])", "avg([a, b])", "sum([a])", "max([a, - a])", "+ a", "type(+ a)", "ceil(a)", "floor(b)", "to_number(a)", "sum([a, b]) > `0`", "a // b * b + a % b", "contains([a], b)", "a && b", "type(a)"}
 	for pi, pr := range pairs {
